@@ -143,6 +143,9 @@ def verify_block(ex, fi, c, name, label=None):
                     ex.oblige(s, f'{lab}/may_raise[{val}].if', eval_clause(ex, st, may[val], scx), kind='raises-iff')
             elif kind == 'return' and 'on_return' in spec:
                 # the block may leave the function: what then holds of the returned value and the state
+                rt_ = return_type(ex, fi, c)
+                if rt_ is not None and rt_.kind != 'none':
+                    val = ex.coerce_chk(s, cx, fi.node, val, rt_, f'return value of {fi.key}')
                 s2 = s.setvar('result', val)
                 for i, cl in enumerate(spec['on_return']):
                     ex.oblige(s2, f'{lab}/on_return[{i}]', eval_clause(ex, s2, cl, scx), kind='ensures', info=dict(clause=cl))
